@@ -219,27 +219,22 @@ Proof.
 Qed.
 Print Assumptions c01_bde_multiarch.
 
-(* c01_resolve_order — REFUTED (finding C01-F1). Full statement: "for every
-   universe and every two iteration orders ord, ord' of the resolved
-   dependency map, install_if_pass m deps ord = install_if_pass m deps ord'".
-   False: with two install_if packages triggered in one resolution the
-   dependency list, hence the install order, hence lib/apk/db/installed,
-   hence the layer digest, follows Go's map iteration. *)
-Theorem c01_resolve_order_refuted :
-  exists m deps ord ord', NoDup ord /\ Permutation ord ord' /\ Permutation ord deps /\
-    install_if_pass m deps ord <> install_if_pass m deps ord'.
-Proof. exact install_if_order_refuted. Qed.
-Print Assumptions c01_resolve_order_refuted.
-
-(* the strongest form that holds: when at most one resolved dependency
-   triggers install_if packages the order is irrelevant. Missing for the full
-   statement: two or more triggering dependencies. *)
-Theorem c01_resolve_order_partial : forall m deps ord ord' k,
-  NoDup ord -> Permutation ord ord' -> In k ord ->
-  (forall d, In d ord -> d <> k -> ii_lookup m d = []) ->
-  install_if_pass m deps ord = install_if_pass m deps ord'.
-Proof. exact install_if_partial. Qed.
-Print Assumptions c01_resolve_order_partial.
+(* c01_resolve_order — FULL (was refuted until fix c03e0c0, finding C01-F1).
+   The install_if loop of GetPackageWithDependencies used to range over the Go
+   map `added`: with two install_if packages triggered in one resolution the
+   dependency list, hence the install order, hence lib/apk/db/installed, hence
+   the layer digest, followed Go's map iteration.  It now walks the dependency
+   list by index (appended entries included) and the model has no iteration
+   order left to quantify over: for every install_if map and every dependency
+   list the loop ends within its fuel with ONE list — the dependency list it
+   started with, followed by names that are new, each once.  The tie to the
+   code is the installif stage (every observed order, in process and in
+   repeated identical CLI builds, must EQUAL this list). *)
+Theorem c01_resolve_order : forall m deps,
+  exists l, install_if_pass m deps = Some l /\
+    exists extra, l = deps ++ extra /\ NoDup extra /\ (forall x, In x extra -> ~ In x deps).
+Proof. exact install_if_one_order. Qed.
+Print Assumptions c01_resolve_order.
 
 (* c01_tarball_order — REFUTED (finding C01-F2): the member order of the
    output tarball follows the iteration order of go-containerregistry's image
@@ -281,7 +276,13 @@ Example c01_bde_example :
   multi_arch_bde 0 [1700009999; 1700000001]%Z = multi_arch_bde 0 [1700000001; 1700009999]%Z.
 Proof. vm_compute. repeat split; reflexivity. Qed.
 
+(* the witness of the former refutation has one order; a chain (y after x1
+   after d1) and a package with two triggers are appended when their last
+   trigger has been visited *)
 Example c01_resolve_order_example :
-  install_if_pass ii_universe ["d1"; "d2"] ["d1"; "d2"] = ["d1"; "d2"; "x1"; "x2"] /\
-  install_if_pass ii_universe ["d1"; "d2"] ["d2"; "d1"] = ["d1"; "d2"; "x2"; "x1"].
-Proof. vm_compute. split; reflexivity. Qed.
+  install_if_pass ii_universe ["d1"; "d2"] = Some ["d1"; "d2"; "x1"; "x2"] /\
+  install_if_pass ii_universe ["d2"; "d1"] = Some ["d2"; "d1"; "x2"; "x1"] /\
+  install_if_pass (ii_build [{| ii_name := "y"; ii_if := ["x1"] |}; {| ii_name := "x1"; ii_if := ["d1"] |};
+                             {| ii_name := "z"; ii_if := ["d1"; "d2"] |}]) ["d1"; "d2"]
+    = Some ["d1"; "d2"; "x1"; "z"; "y"].
+Proof. vm_compute. repeat split; reflexivity. Qed.
